@@ -416,6 +416,15 @@ func cmdC13Corr(seed uint64, n int, dir string) {
 			var rv g.Value
 			p := caught13(func() { rv = g.VerifConvert(nv, 64) })
 			add("SToString", "SToString %s %s", coqValue(nv), coqResStr(p, coqValue(rv)))
+			// native oracle: string(x) of an integer value is the UTF-8 encoding of rune(x) (U+FFFD when x is no rune)
+			if want := string(rune(int32(g.VerifNum(nv)))); g.VerifTag(nv) != g.VerifTag(g.Uint32(0)) || g.VerifNum(nv) < (1<<31) {
+				if g.VerifTag(nv) == g.VerifTag(g.Uint32(0)) {
+					want = string(rune(uint32(g.VerifNum(nv))))
+				}
+				if p || rv.String() != want {
+					st.mismatchG("string(integer)", c13Direct{"string(x) for an integer x", fmt.Sprintf("x = %v (tag %d)", g.VerifNum(nv), g.VerifTag(nv)), fmt.Sprintf("%q % x", want, want), fmt.Sprintf("panic=%v %q % x", p, rv.String(), rv.String())})
+				}
+			}
 			add("XConvert", "XConvert %s %s", coqValue(nv), top(exec([][4]int{{code["CONVERT"], 64, 0, 0}}, []g.Value{nv})))
 			rr := rune(int32(x))
 			add("GEncode", "GEncode %s %s", coqZ(int64(rr)), coqBytes(string(rr)))
